@@ -19,6 +19,9 @@ func TestSim(t *testing.T) {
 
 func run(r *core.R) {
 	r.FaultDecl("conflict", "error_before", "crash_before", "crash_after", "clock_jump")
+	if commitThenError {
+		r.FaultDecl("commit_then_error")
+	}
 	r.ProbeDecl("add_ok", "add_ok_dual_stack", "add_failed", "add_crashed", "add_failed_nothing_allocated",
 		"add_rollback_v4_after_v6_shortage", "add_rollback_v6_after_v4_shortage", "faulted_add_left_address_for_del",
 		"fault_free_failed_add_left_address_until_del", "add_retried_after_failure", "add_ok_on_dirty_container",
@@ -154,6 +157,9 @@ func run(r *core.R) {
 			f = sched.Conflict
 		} else if src.Chance(pError, "f_error") {
 			f = sched.ErrorBefore
+			if commitThenError && q.Write && src.Chance(500, "f_commit_then_error") {
+				f = sched.CommitThenError // exploratory only, see below
+			}
 		} else if src.Chance(pCrash, "f_crash") {
 			if q.Write && src.Chance(500, "f_crash_after") {
 				f = sched.CrashAfter
@@ -191,4 +197,11 @@ func run(r *core.R) {
 	r.Fingerprint(w.or.fingerprint())
 }
 
+// Two opt-in switches for exploration beyond what C38 claims; both are off in every tier of ./check.
+//
+// VERIF_CNI_STRICT_ROLLBACK=1: a fault-free failing ADD must leave nothing behind even when the failure is an error
+// from AutoAssign (a requested family has no IP pool) rather than a short result.
+// VERIF_CNI_COMMIT_THEN_ERROR=1: additionally inject writes that land although the caller is told they failed (a
+// fault kind outside the engine's stated fault model).
 var strictRollback = os.Getenv("VERIF_CNI_STRICT_ROLLBACK") != ""
+var commitThenError = os.Getenv("VERIF_CNI_COMMIT_THEN_ERROR") != ""
